@@ -515,6 +515,17 @@ def c05(tier):
     # (c) rename failures: the printed count must be the number actually inserted
     for sc in rl.small_trees():
         rl.planned_runs(binary, sc, [[("edit", "op=rename,nth=1:errno=5")], [("edit", "op=rename,nth=0:errno=18")]], batch, v)
+    # the printed count when a file fails after IDs were taken for it: write failures at every scratch-file operation, and the
+    # ID range running out in the middle of a file
+    for structured in (False, True):
+        sc = rl.Scenario("count-under-faults", {"f1.rs": [S(11), S(12), S(13)], "f2.rs": [S(21), S(22)], "f3.rs": [S(31), S(32, ref=2)]},
+                         structured=structured, pad=30000)
+        rl.sweep(binary, sc, "edit", ["ENOSPC"], batch, v, only_ops=("tmp.create", "tmp.write"))
+        hi = rl.bl.U32MAX - 9
+        for lock in (8, 9):
+            sc = rl.Scenario("count-range-runs-out", {"f1.rs": [S(11), S(12), S(13)], "f2.rs": [S(21), S(22)]}, lock=lock, base=hi,
+                             structured=structured)
+            rl.planned_runs(binary, sc, [[("edit", "")]], batch, v, sigbase={"embedding": "high"})
     # an extension that is configured twice (literally, or in two letter cases) still means every file once
     for structured in (False, True):
         for exts in (["rs", "rs"], ["rs", "RS"], ["txt", "rs", "rs"]):
@@ -740,7 +751,10 @@ def c07(tier):
     for sc in scens:
         sc.kw["extra_files"] = EXTRA
         small = sum(len(x) for x in sc.tree.values()) <= 12 and not sc.kw.get("pad")
-        K, n = rl.sweep(binary, sc, "edit", kinds, batch, v, follow=("recover" if small else None))
+        # a stop request is one more thing that can happen at any operation: while a file with many statements is being
+        # written, too (the file must still end up complete or untouched)
+        kk = kinds + (["TERM"] if sc.name.startswith("sized-10k") else [])
+        K, n = rl.sweep(binary, sc, "edit", kk, batch, v, follow=("recover" if small else None))
         log("[sweep] %s: %d operations, %d runs" % (sc.name, K, n))
     # the same sweep with TMPDIR on another file system (no file can be moved into place; nothing may appear in the project)
     for structured in (False, True):
